@@ -26,8 +26,8 @@ class chunks(object):
         #
         # Find maximum and minimum dec (in degrees)
         #
-        decMin = dec.min()
-        decMax = dec.max()
+        decMin = float(dec.min())
+        decMax = float(dec.max())
         decRange = decMax - decMin
         #
         # Find the declination boundaries; make them an integer multiple of
